@@ -75,9 +75,15 @@ def declared_symbols(nested):
         if not isinstance(c, list) or len(c) < 2:
             continue
         h = c[0]
-        if h in ('declare-const', 'declare-fun', 'define-fun', 'declare-sort',
-                 'define-sort', 'define-fun-rec'):
-            add(c[1])
+        # only well-formed declarations declare something: the partially
+        # reduced forms contain remains such as (declare-const x)
+        arity = {'declare-const': 3, 'declare-fun': 4, 'define-fun': 5,
+                 'declare-sort': 3, 'define-sort': 4, 'define-fun-rec': 5}
+        if not isinstance(h, str):
+            continue
+        if h in arity:
+            if len(c) == arity[h]:
+                add(c[1])
         elif h == 'declare-datatype' and len(c) == 3:
             add(c[1])
             for cd in c[2] if isinstance(c[2], list) else []:
